@@ -210,7 +210,7 @@ func addElemChanges(patchRoot, old, new *etree.Element, elemPath string) error {
 			case OpDelete:
 				e := patchRoot.CreateElement("remove")
 				oldElem := oldChildren[d.OldPos]
-				addr := calcAddr(oldElem, oldIdx)
+				addr := calcAddr(oldElem, lastNewIdx[oldElem.Tag]) // position among the elements with the same tag
 				e.CreateAttr("sel", fmt.Sprintf("%s/%s", elemPath, addr))
 				oldIdx++
 			case OpInsert:
